@@ -19,6 +19,67 @@
 
 #include "io.h"
 
+#ifdef SNAPRAID_VERIF
+/*
+ * Verification hook: trace of the slot hand-overs and optional schedule perturbation.
+ *
+ * SNAPRAID_VERIF_TRACE=<file>  appends one line per event; events are emitted with
+ *                              the io mutex held, so their order is the order of
+ *                              the critical sections.
+ * SNAPRAID_VERIF_YIELD=<seed>  calls a seeded yield/sleep at the hand-over points.
+ *
+ * No behaviour change when the two environment variables are unset.
+ */
+#include <sched.h>
+static FILE* verif_trace = 0;
+static unsigned long verif_seed = 0;
+static int verif_ready = 0;
+
+static void verif_setup(void)
+{
+	const char* e;
+
+	if (verif_ready)
+		return;
+	verif_ready = 1;
+	e = getenv("SNAPRAID_VERIF_TRACE");
+	if (e)
+		verif_trace = fopen(e, "a");
+	e = getenv("SNAPRAID_VERIF_YIELD");
+	if (e)
+		verif_seed = strtoul(e, 0, 10) | 1;
+}
+
+static void verif_event(const char* kind, unsigned a, unsigned b, unsigned c)
+{
+	if (verif_trace) {
+		fprintf(verif_trace, "%s %u %u %u\n", kind, a, b, c);
+		fflush(verif_trace);
+	}
+}
+
+static void verif_perturb(void* who)
+{
+	static __thread unsigned long x = 0;
+
+	if (!verif_seed)
+		return;
+	if (!x)
+		x = verif_seed ^ ((unsigned long)(uintptr_t)who * 2654435761UL) ^ (unsigned long)(uintptr_t)&x;
+	x ^= x << 13;
+	x ^= x >> 7;
+	x ^= x << 17;
+	if ((x & 15) == 0)
+		usleep((x >> 8) % 400);
+	else if ((x & 3) == 0)
+		sched_yield();
+}
+#else
+#define verif_setup() do { } while (0)
+#define verif_event(kind, a, b, c) do { } while (0)
+#define verif_perturb(who) do { } while (0)
+#endif
+
 void (*io_start)(struct snapraid_io* io,
 	block_off_t blockstart, block_off_t blockmax,
 	bit_vect_t* block_enabled) = 0;
@@ -287,6 +348,8 @@ static struct snapraid_task* io_reader_step(struct snapraid_worker* worker)
 {
 	struct snapraid_io* io = worker->io;
 
+	verif_perturb(worker);
+
 	/* the synchronization is protected by the io mutex */
 	thread_mutex_lock(&io->io_mutex);
 
@@ -296,6 +359,7 @@ static struct snapraid_task* io_reader_step(struct snapraid_worker* worker)
 		/* check if the worker has to exit */
 		/* even if there is work to do */
 		if (io->done) {
+			verif_event("RX", (unsigned)(worker - io->reader_map), 0, 0);
 			thread_mutex_unlock(&io->io_mutex);
 			return 0;
 		}
@@ -317,6 +381,8 @@ static struct snapraid_task* io_reader_step(struct snapraid_worker* worker)
 			worker->index = next_index;
 			task = &worker->task_map[worker->index];
 
+			verif_event("RA", (unsigned)(worker - io->reader_map), next_index, done_index == waiting_index);
+
 			/* if the just completed task is at this index */
 			if (done_index == waiting_index) {
 				/* notify the IO that a new read is complete */
@@ -328,6 +394,8 @@ static struct snapraid_task* io_reader_step(struct snapraid_worker* worker)
 			/* return the new task */
 			return task;
 		}
+
+		verif_event("RB", (unsigned)(worker - io->reader_map), 0, 0);
 
 		/* otherwise wait for a read_sched event */
 		thread_cond_wait(&io->read_sched, &io->io_mutex);
@@ -343,6 +411,8 @@ static struct snapraid_task* io_writer_step(struct snapraid_worker* worker, int 
 {
 	struct snapraid_io* io = worker->io;
 	int error_index;
+
+	verif_perturb(worker);
 
 	/* the synchronization is protected by the io mutex */
 	thread_mutex_lock(&io->io_mutex);
@@ -372,6 +442,8 @@ static struct snapraid_task* io_writer_step(struct snapraid_worker* worker, int 
 			worker->index = next_index;
 			task = &worker->task_map[worker->index];
 
+			verif_event("WA", (unsigned)(worker - io->writer_map), next_index, done_index == waiting_index);
+
 			/* if the just completed task is at this index */
 			if (done_index == waiting_index) {
 				/* notify the IO that a new write is complete */
@@ -387,9 +459,12 @@ static struct snapraid_task* io_writer_step(struct snapraid_worker* worker, int 
 		/* check if the worker has to exit */
 		/* but only if there is no work to do */
 		if (io->done) {
+			verif_event("WX", (unsigned)(worker - io->writer_map), 0, 0);
 			thread_mutex_unlock(&io->io_mutex);
 			return 0;
 		}
+
+		verif_event("WK", (unsigned)(worker - io->writer_map), 0, 0);
 
 		/* otherwise wait for a write_sched event */
 		thread_cond_wait(&io->write_sched, &io->io_mutex);
@@ -432,8 +507,12 @@ static block_off_t io_read_next_thread(struct snapraid_io* io, void*** buffer)
 	/* set the buffer to use */
 	*buffer = io->buffer_map[io->reader_index];
 
+	verif_event("RN", io->reader_index, blockcur_schedule, blockcur_caller);
+
 	/* signal all the workers that there is a new pending task */
 	thread_cond_broadcast_and_unlock(&io->read_sched, &io->io_mutex);
+
+	verif_perturb(io);
 
 	return blockcur_caller;
 }
@@ -475,6 +554,8 @@ static void io_write_next_thread(struct snapraid_io* io, block_off_t blockcur, i
 
 	/* at this point the writers must be in sync with the readers */
 	assert(io->writer_index == io->reader_index);
+
+	verif_event("WN", io->writer_index, blockcur, skip != 0);
 
 	/* set the index to be used for the next write */
 	io->writer_index = (io->writer_index + 1) % io->io_max;
@@ -578,6 +659,8 @@ static struct snapraid_task* io_task_read_thread(struct snapraid_io* io, unsigne
 
 					task = &worker->task_map[io->reader_index];
 
+					verif_event("C", i, io->reader_index, task->position);
+
 					thread_mutex_unlock(&io->io_mutex);
 
 					/* mark the worker as processed */
@@ -598,6 +681,8 @@ static struct snapraid_task* io_task_read_thread(struct snapraid_io* io, unsigne
 			/* next position to check */
 			let = &io->reader_list[i + 1];
 		}
+
+		verif_event("CB", base, count, 0);
 
 		/* if no worker is ready, wait for an event */
 		thread_cond_wait(&io->read_done, &io->io_mutex);
@@ -664,6 +749,8 @@ static void io_parity_write_thread(struct snapraid_io* io, unsigned* pos, unsign
 
 			/* if the worker has finished this index */
 			if (busy_index != worker->index) {
+				verif_event("WC", i, busy_index, 0);
+
 				thread_mutex_unlock(&io->io_mutex);
 
 				/* mark the worker as processed */
@@ -683,6 +770,8 @@ static void io_parity_write_thread(struct snapraid_io* io, unsigned* pos, unsign
 			/* next position to check */
 			let = &io->writer_list[i + 1];
 		}
+
+		verif_event("WB", 0, 0, 0);
 
 		/* if no worker is ready, wait for an event */
 		thread_cond_wait(&io->write_done, &io->io_mutex);
@@ -792,12 +881,17 @@ static void io_start_thread(struct snapraid_io* io,
 	for (i = 0; i < IO_WRITER_ERROR_MAX; ++i)
 		io->writer_error[i] = 0;
 
+	verif_setup();
+	verif_event("S", io->io_max, io->reader_max, io->writer_max);
+
 	/* setup the initial read pending tasks, except the latest one, */
 	/* the latest will be initialized at the fist io_read_next() call */
 	for (i = 0; i < io->io_max - 1; ++i) {
 		block_off_t blockcur = io_position_next(io);
 
 		io_reader_sched(io, i, blockcur);
+
+		verif_event("SP", i, blockcur, 0);
 	}
 
 	/* setup the lists of workers to process */
@@ -832,6 +926,8 @@ static void io_stop_thread(struct snapraid_io* io)
 
 	/* mark that we are stopping */
 	io->done = 1;
+
+	verif_event("ST", 0, 0, 0);
 
 	/* signal all the threads to recognize the new state */
 	thread_cond_broadcast(&io->read_sched);
